@@ -57,6 +57,9 @@ pub fn family(f: usize) -> Vec<(&'static str, SGeom)> {
             // the limits of the 32-bit coordinates GDSII can carry
             ("rect at the lowest coordinates", SGeom::Rect((-2147483648, -2147483648), (-2147483600, -2147483640))),
             ("rect at the highest coordinates", SGeom::Rect((2147483600, 2147483640), (2147483647, 2147483647))),
+            // rectangles without area are shapes all the same
+            ("rect of zero width", SGeom::Rect((5, 0), (5, 30))),
+            ("rect of zero height, corners swapped", SGeom::Rect((40, 7), (0, 7))),
         ],
         1 => vec![("L (bbox centre outside)", SGeom::Poly(l.clone())), ("L from the reflex vertex", SGeom::Poly(rotate_cycle(&l, 3))), ("L clockwise", SGeom::Poly(reversed(&l)))],
         2 => vec![("U (bbox centre outside)", SGeom::Poly(u.clone())), ("U from an inner vertex", SGeom::Poly(rotate_cycle(&u, 3))), ("U reversed", SGeom::Poly(reversed(&u)))],
@@ -105,8 +108,8 @@ const LOCS: [P; 5] = [(300, -200), (0, 0), (-7, 1000), (100000, -100000), (-2147
 const ORIENT_TAGS: [&str; 8] = ["inst:R0", "inst:R90", "inst:R180", "inst:R270", "inst:MX", "inst:MX-R90", "inst:MX-R180", "inst:MX-R270"];
 const NETS: [Option<&str>; 3] = [None, Some("vdd"), Some("VDD_Core")];
 const NET_TAGS: [&str; 3] = ["net:none", "net:lower-case", "net:Mixed-Case"];
-const LP: [(usize, usize); 7] = [(0, 0), (0, 1), (1, 0), (1, 1), (0, 3), (0, 4), (1, 2)];
-const LP_TAGS: [&str; 7] = ["lp:la/drawing", "lp:la/pin", "lp:lb/drawing", "lp:lb/other7", "lp:la/obstruction", "lp:la/outline", "lp:lb/label"];
+const LP: [(usize, usize); 9] = [(0, 0), (0, 1), (1, 0), (1, 1), (0, 3), (0, 4), (1, 2), (3, 0), (4, 0)];
+const LP_TAGS: [&str; 9] = ["lp:la/drawing", "lp:la/pin", "lp:lb/drawing", "lp:lb/other7", "lp:la/obstruction", "lp:la/outline", "lp:lb/label", "lp:layer-1000/drawing", "lp:layer-32767/drawing"];
 const UNITS: [Units; 4] = [Units::Nano, Units::Micro, Units::Angstrom, Units::Pico];
 const UNIT_TAGS: [&str; 4] = ["units:nano", "units:micro", "units:angstrom", "units:pico"];
 const CELL_NAMES: [&str; 3] = ["c0_top", "c1", "c2"];
@@ -189,7 +192,7 @@ fn gen_lib(c: &mut Chooser) -> Case {
         }
         3 => {
             leaf.shapes.push(focus);
-            leaf.shapes.push(SShape { layer: 1 - LP[lp].0, purpose: 0, geom: family(1)[0].1.clone(), net: Some("Other".into()) });
+            leaf.shapes.push(SShape { layer: if LP[lp].0 == 0 { 1 } else { 0 }, purpose: 0, geom: family(1)[0].1.clone(), net: Some("Other".into()) });
         }
         4 => {
             leaf.shapes.push(SShape { layer: LP[lp].0, purpose: LP[lp].1, geom: far, net: Some("Other".into()) });
@@ -437,7 +440,7 @@ fn check_spec(spec: &Spec, key: &str, cx: &mut Cx) {
     for with_layers in [false, true] {
         let layers = if with_layers { Some(Ptr::clone(&lib.layers)) } else { None };
         let how = if with_layers { "the original Layers" } else { "fresh Layers" };
-        match guard(|| Library::from_gds(&gds, layers).map(|l| rawview::view(&l))) {
+        match guard(|| Library::from_gds(&gds, layers).map(|l| (rect_corners(&l), rawview::view(&l))).map(|(r, v)| v.map(|v| (v, r)))) {
             Err(p) => {
                 all_ok = false;
                 let f = if p.msg.contains("Non-Manhattan") && has_multi_segment_path { Some("closed_path_reimport_panics") } else { None };
@@ -453,7 +456,18 @@ fn check_spec(spec: &Spec, key: &str, cx: &mut Cx) {
                 all_ok = false;
                 fails.push(("reimport-unreadable", None, format!("re-imported library (with {how}) cannot be read: {m}")));
             }
-            Ok(Ok(Ok(got))) => {
+            Ok(Ok(Ok((got, got_rects)))) => {
+                // a rectangle keeps its two corner points as they were given (p0 stays p0), not just its outline
+                for (cell, a, b) in spec_rects(spec) {
+                    if got_rects.iter().any(|(c, p0, p1)| *c == cell && *p0 == a && *p1 == b) {
+                        continue;
+                    }
+                    let norm = |a: (i64, i64), b: (i64, i64)| ((a.0.min(b.0), a.1.min(b.1)), (a.0.max(b.0), a.1.max(b.1)));
+                    if let Some((_, p0, p1)) = got_rects.iter().find(|(c, p0, p1)| *c == cell && norm(*p0, *p1) == norm(a, b)) {
+                        all_ok = false;
+                        fails.push(("rect-corners-reordered", None, format!("round trip with {how}: cell {cell}: rectangle given by the corners {a:?}, {b:?} comes back with the corners {p0:?}, {p1:?}")));
+                    }
+                }
                 let d = rawspec::compare_views(&exp, &got, MODE);
                 if !d.is_empty() {
                     all_ok = false;
@@ -479,6 +493,37 @@ fn check_spec(spec: &Spec, key: &str, cx: &mut Cx) {
     }
 }
 
+/// (cell name, p0, p1) of every rectangle element of a raw library
+fn rect_corners(lib: &Library) -> Vec<(String, (i64, i64), (i64, i64))> {
+    let mut out = vec![];
+    for c in lib.cells.iter() {
+        if let Ok(c) = c.read() {
+            if let Some(l) = &c.layout {
+                for e in &l.elems {
+                    if let layout21raw::Shape::Rect(r) = &e.inner {
+                        out.push((c.name.clone(), (r.p0.x as i64, r.p0.y as i64), (r.p1.x as i64, r.p1.y as i64)));
+                    }
+                }
+            }
+        }
+    }
+    out
+}
+/// (cell name, first corner, second corner) of every rectangle of the description
+fn spec_rects(spec: &Spec) -> Vec<(String, (i64, i64), (i64, i64))> {
+    let mut out = vec![];
+    for c in &spec.cells {
+        if let Some(l) = &c.layout {
+            for s in &l.shapes {
+                if let SGeom::Rect(a, b) = &s.geom {
+                    out.push((c.name.clone(), *a, *b));
+                }
+            }
+        }
+    }
+    out
+}
+
 // ---------------------------------------------------------------------------------------------------
 // part `lib`
 // ---------------------------------------------------------------------------------------------------
@@ -492,7 +537,7 @@ impl CaseDriver for C07Lib {
     fn describe(&self, tier: Tier) -> Describe {
         Describe {
             rule: format!(
-                "raw libraries of 1..3 cells (chain c0 -> c1 -> c2) listed in every order; every instance in all 8 orientations (free); the last cell holds a focus shape: family {FAMILIES:?} (free) x (layer, purpose) in 2 layers x 2 purposes plus obstruction, outline and label purposes (free) x net absent / lower-case / Mixed-Case (free); costed (deviation bound {}): shape variant within the family (both corner orders and mixed corners of rectangles, start vertex and direction of polygons, 1..3 segment paths, widths 2/3/4), units Nano/Micro/Angstrom/Pico, instance offsets {LOCS:?}, angle None vs Some(0), a second placement, the top also placing the leaf, named non-leaf shape, a second shape (unnamed same layer+purpose / named same layer other purpose / named other layer same place / named listed first / a named 2x2 neighbour one unit outside the shape's flush bounding box on each side, level with its first or last point, listed before or after; or a neighbour one unit thick starting right after the true extent of the shape, a path then given an odd width), unit-wide rectangles at negative coordinates, width-1 / backwards-drawn / ring / out-and-back paths (variants of the families), a blank cell (unreferenced / instantiated), two cells whose names differ only in letter case. Non-trivial = has an instance or a net.",
+                "raw libraries of 1..3 cells (chain c0 -> c1 -> c2) listed in every order; every instance in all 8 orientations (free); the last cell holds a focus shape: family {FAMILIES:?} (free) x (layer, purpose) in 2 layers x 2 purposes plus obstruction, outline and label purposes and layers numbered 1000 and 32767 (free) x net absent / lower-case / Mixed-Case (free); costed (deviation bound {}): shape variant within the family (both corner orders and mixed corners of rectangles, start vertex and direction of polygons, 1..3 segment paths, widths 2/3/4), units Nano/Micro/Angstrom/Pico, instance offsets {LOCS:?}, angle None vs Some(0), a second placement, the top also placing the leaf, named non-leaf shape, a second shape (unnamed same layer+purpose / named same layer other purpose / named other layer same place / named listed first / a named 2x2 neighbour one unit outside the shape's flush bounding box on each side, level with its first or last point, listed before or after; or a neighbour one unit thick starting right after the true extent of the shape, a path then given an odd width), unit-wide rectangles at negative coordinates, width-1 / backwards-drawn / ring / out-and-back paths (variants of the families), a blank cell (unreferenced / instantiated), two cells whose names differ only in letter case. Non-trivial = has an instance or a net.",
                 self.bound(tier)
             ),
             assumptions: assumptions(),
@@ -537,7 +582,7 @@ impl CaseDriver for C07Lib {
 
 fn assumptions() -> Vec<String> {
     vec![
-        "a rectangle and the 4-vertex axis-parallel polygon with the same corners are the same shape; polygons up to rotation/direction of the vertex cycle; paths as exact point list + width".into(),
+        "a rectangle and the 4-vertex axis-parallel polygon with the same corners are the same shape (but a rectangle that comes back as a rectangle keeps its two corner points in the order given); polygons up to rotation/direction of the vertex cycle; paths as exact point list + width".into(),
         "instances compared as a multiset of (cell name, location, reflection, angle in whole degrees with None = 0); instance names are not part of the statement".into(),
         "all shapes of one cell that share a layer number are pairwise bbox-disjoint, so the label of one shape cannot name another".into(),
         "a label in the corner/cap zone of a path is not judged (the statement fixes only 'inside the shape')".into(),
@@ -565,8 +610,8 @@ fn self_check() -> Result<(), String> {
                             }
                         }
                         SGeom::Rect(a, b) => {
-                            if a.0 == b.0 || a.1 == b.1 {
-                                return Err(format!("alphabet rectangle '{name}' is degenerate"));
+                            if a.0 == b.0 && a.1 == b.1 {
+                                return Err(format!("alphabet rectangle '{name}' is a single point"));
                             }
                         }
                         SGeom::Path(p, w) => {
